@@ -140,3 +140,5 @@ def parameter_state_machine(vc):
     if b2:
         vc.ensures("box_well_formed", vc.And(vc.attr(p, "lower") < vc.attr(p, "upper"),
                                              vc.eq(vc.attr(p, "width"), vc.attr(p, "upper") - vc.attr(p, "lower"))))
+
+from contracts.mcmc_native import limits_native  # noqa: registers the bounded layer
